@@ -120,11 +120,11 @@ theorem new_wf (cfg : Cfg) (p : Pos) (h : Pos.new cfg = .ok p) : WFBoard p := by
       · simp
 
 /-! ### `ptn.ResultFromGame` -/
-theorem result_refines (p : Pos) (wf : RoadWF p) (hr : ReservesOK p) :
+theorem result_refines (p : Pos) (wf : RoadWF p) :
     p.resultFromGame = match Spec.result (Spec.abs p) with
       | some r => .ok r
       | none => .error (.panic "ResultFromGame: game is not over") := by
-  have h := winDetails_refines p wf hr
+  have h := winDetails_refines p wf
   unfold Pos.resultFromGame Spec.result
   rw [← h]
   simp only [toOutcome]
